@@ -247,6 +247,29 @@ def check(ctx, rep):
                 for lg in logs:
                     if not (len(lg.args) >= 2 and h.name and norm(lg.args[0]) == h.name and norm(lg.args[1]) == proto):
                         problems.append("the failure is not logged with the caught exception and the protocol object (client address, classes)")
+        # ... on every path: the handler is walked with protocol.handle() failing in each representative way
+        for c in hcalls:
+            for exc in ("BrokenPipeError", "ConnectionResetError", "TimeoutError", "OSError", "RuntimeError", "KeyError"):
+                def rp(call, target, _c=c, _exc=exc):
+                    return [_exc] if call is _c else []
+
+                w_ = Walker(prog, ctx.resolver, raise_points=rp, max_paths=20000,
+                            inline=lambda fn, t, d: d < 3 and (t.bound_cls is not None or fn.module is rh.module) and fn.name != "handle")
+                try:
+                    hpaths = w_.run(rh, rh.cls)
+                except Exception:
+                    problems.append("could not enumerate the connection handler's paths")
+                    break
+                for p in hpaths:
+                    at = [i for i, e in enumerate(p.events) if e.kind == "raise" and e.extra == "implicit" and e.node is c]
+                    if not at:
+                        continue
+                    after = p.events[at[0]:]
+                    if p.kind == "raise":
+                        problems.append(f"a {exc} from protocol.handle() leaves the connection handler")
+                    elif not any(e.kind == "call" and (dotted(e.node.func) or "").endswith("GopherExceptions.log") for e in after):
+                        tests = [f"{norm(e.node)[:50]} is {bool(e.extra)}" for e in after if e.kind == "test" and e.extra is not None]
+                        problems.append(f"a {exc} from protocol.handle() is not logged when {tests[0] if tests else 'it is caught'}")
         rep.add("R20a", "connection handler contains and logs failures", not problems, ctx.where(rh), "; ".join(sorted(set(problems))),
                 key="R20a|handle|" + ";".join(sorted(set(problems))))
     bs = ctx.cls("server.BaseServer")
@@ -404,7 +427,21 @@ def check(ctx, rep):
                 "exception class": rf"(type\({p_exc}\)|{p_exc}\.__class__)\.__(qual)?name__"}
         missing = {k: [] for k in pats}
         n_logged = 0
-        for pth in Walker(prog, ctx.resolver).run(lg):
+        ev_texts = _log_line_evaluation(ctx, lg)
+        if ev_texts is not None:
+            # decided by evaluating log() with objects that answer every attribute with its own access path
+            for what, needle in (("client address", "<protocol.requesthandler.client_address[0]>"), ("protocol class", "<class of protocol>"),
+                                 ("exception class", "<class of exception>")):
+                bad = [t for t in ev_texts if needle not in t]
+                rep.add("R20d", f"log line carries the {what}", not bad, ctx.where(lg),
+                        "" if not bad else f"a failure of a request is logged as {bad[0]!r}: the {what} is not in the line", key=f"R20d|{what}")
+            bare = _log_line_evaluation(ctx, lg, with_proto=False)
+            bad = None if bare is None else [t for t in bare if "<class of exception>" not in t]
+            rep.add("R20d", "log line carries the exception class when no protocol object is given", bare is not None and not bad, ctx.where(lg),
+                    "" if bare is not None and not bad else ("log() without a protocol object could not be evaluated" if bare is None else
+                                                             f"a failure outside a protocol is logged as {bad[0]!r}: the exception class is not in the line"),
+                    key="R20d|bare")
+        for pth in (Walker(prog, ctx.resolver).run(lg) if ev_texts is None else []):
             with_proto = any(e.kind == "test" and norm(e.node) == p_proto and e.extra is True for e in pth.events) or \
                 not any(e.kind == "test" and norm(e.node) == p_proto for e in pth.events)
             for e in pth.events:
@@ -416,7 +453,7 @@ def check(ctx, rep):
                             continue  # no protocol object: nothing to say about the client or the protocol
                         if _re.search(pat, blob) is None:
                             missing[what].append(blob[:80])
-        for what, pat in pats.items():
+        for what, pat in (pats.items() if ev_texts is None else []):
             ok = n_logged > 0 and not missing[what]
             rep.add("R20d", f"log line carries the {what}", ok, ctx.where(lg),
                     "" if ok else f"nothing matching `{pat}` reaches the logged string ({(missing[what] or ['no log call'])[0]})", key=f"R20d|{what}")
@@ -440,6 +477,88 @@ def check(ctx, rep):
 
     # ------------------------------------------------------------------ R20e
     body_writer_obligations(ctx, rep, "R20e")
+
+
+class _PathObj:
+    """An object of the evaluation that answers every attribute / index with its own access path."""
+
+    def __init__(self, path):
+        self.path = path
+
+    def __repr__(self):
+        return f"<{self.path}>"
+
+    __str__ = __repr__
+
+    def __format__(self, spec):
+        return f"<{self.path}>"
+
+    def __bool__(self):
+        return True
+
+    def __getitem__(self, i):
+        return _PathObj(f"{self.path}[{i!r}]")
+
+    def pgv_attr(self, name):
+        if name in ("__name__", "__qualname__") and self.path.startswith("type("):
+            return f"<class of {self.path[5:-1]}>"
+        if name == "__class__":
+            return _PathObj(f"type({self.path})")
+        return _PathObj(f"{self.path}.{name}")
+
+
+def _log_line_evaluation(ctx, lg, with_proto=True):
+    """GopherExceptions.log(exception, protocol, handler) evaluated with path objects for its arguments: the texts handed to
+    logger.log().  None when the walker cannot follow the code."""
+    from ..paths import Const
+
+    prog = ctx.prog
+    params = lg.params
+    if len(params) < 2:
+        return None
+    holder = {}
+
+    def path_of(v):
+        return v.value.path if v is not None and v.kind == "const" and isinstance(v.value, _PathObj) else None
+
+    def cv(call, target, st):
+        w = holder["w"]
+        a = w.cur_args or []
+        d = dotted(call.func) or ""
+        if d in ("type",) and len(a) == 1 and path_of(a[0]):
+            return Const(_PathObj(f"type({path_of(a[0])})"))
+        if d in ("str", "repr") and len(a) == 1 and path_of(a[0]):
+            return Const(f"<{d}({path_of(a[0])})>")
+        if d.endswith("logger.log") and a:
+            prev = st.facts.get("__logged")
+            prev = prev.value if prev is not None and prev.kind == "const" else ()
+            st.facts["__logged"] = Const(prev + ((str(a[0].value) if a[0].kind == "const" else None),))
+            return Const(None)
+        if d == "getattr" and len(a) >= 2 and path_of(a[0]) and a[1].kind == "const":
+            return Const(_PathObj(f"{path_of(a[0])}.{a[1].value}"))
+        if d in ("isinstance", "hasattr") and a and path_of(a[0]):
+            return Const(True)
+        return None
+
+    w = Walker(prog, ctx.resolver, call_value=cv, exact_loops=True, unroll=4,
+               inline=lambda fn, t, d: d < 3 and fn.module is lg.module and fn is not lg)
+    holder["w"] = w
+    env = {params[0]: Const(_PathObj("exception")), params[1]: Const(_PathObj("protocol") if with_proto else None)}
+    if len(params) > 2:
+        env[params[2]] = Const(_PathObj("handler") if with_proto else None)
+    try:
+        paths = w.run(lg, None, env=env)
+    except Exception:
+        return None
+    texts = []
+    for p in paths:
+        if p.kind == "raise":
+            return None
+        lv = p.state.facts.get("__logged")
+        if lv is None or lv.kind != "const" or not lv.value or any(x is None for x in lv.value):
+            return None
+        texts.extend(lv.value)
+    return texts or None
 
 
 def body_writer_obligations(ctx, rep, rule):
